@@ -15,6 +15,7 @@ from jaxtyping import AnnotationError, jaxtyped, print_bindings
 assert jaxtyping.__file__.startswith(REPO), (jaxtyping.__file__, REPO)
 
 warnings.filterwarnings("ignore", message="As of jaxtyping version 0.2.24")
+warnings.filterwarnings("ignore", message="no type annotations present")
 
 
 class Duck:
